@@ -399,6 +399,9 @@ def main(argv):
             return cmd_setup()
         if argv[0] == "replay":
             return cmd_replay(argv[1])
+        if argv[0] == "selftest":
+            import selftest
+            return selftest.main()
         prop = argv[0]
         tier = argv[1] if len(argv) > 1 else os.environ.get("VERIF_TIER", "quick")
         if tier not in ("quick", "thorough"):
